@@ -65,6 +65,21 @@ class Folder:
             for value, tgt, stmt in binds:
                 if upto is not None and stmt.lineno >= upto:
                     break
+                if isinstance(value, ast.For):
+                    if not have or not isinstance(val, dict):
+                        raise Unknown('module-level loop fills %s before it is a dict' % nm)
+                    val = dict(val)
+                    self._run_fill_loop(value, nm, val, upto=stmt.lineno)
+                    continue
+                if isinstance(value, ast.Assign):
+                    if not have or not isinstance(val, dict):
+                        raise Unknown('item assignment to %s before it is a dict' % nm)
+                    val = dict(val)
+                    v = self.fold(value.value, upto=stmt.lineno)
+                    for t in value.targets:
+                        if isinstance(t, ast.Subscript) and isinstance(t.value, ast.Name) and t.value.id == nm:
+                            val[self.fold(t.slice, upto=stmt.lineno)] = v
+                    continue
                 if isinstance(value, ast.AugAssign):
                     if not have:
                         raise Unknown('augmented assignment before binding of %s' % nm)
@@ -88,6 +103,30 @@ class Folder:
         finally:
             self.stack.pop()
 
+    def _run_fill_loop(self, loop, nm, table, upto, env=None):
+        """Interpret `for x in <const iterable>: TABLE[k] = ... = v` (constant table construction)."""
+        it = self.fold(loop.iter, upto=upto, env=env)
+        for item in it:
+            env2 = dict(env or {})
+            self.bind(loop.target, item, env2)
+            for st in loop.body:
+                if isinstance(st, ast.Assign):
+                    v = self.fold(st.value, upto=upto, env=env2)
+                    for t in st.targets:
+                        if isinstance(t, ast.Subscript) and isinstance(t.value, ast.Name):
+                            if t.value.id == nm:
+                                table[self.fold(t.slice, upto=upto, env=env2)] = v
+                        elif isinstance(t, ast.Name):
+                            env2[t.id] = v
+                        else:
+                            raise Unknown('statement in table-filling loop not modelled')
+                elif isinstance(st, ast.For):
+                    self._run_fill_loop(st, nm, table, upto, env=env2)
+                elif isinstance(st, (ast.Pass,)):
+                    pass
+                else:
+                    raise Unknown('statement kind %s in table-filling loop' % type(st).__name__)
+
     def binop(self, l, op, r):
         try:
             if isinstance(op, ast.BitOr):
@@ -101,6 +140,8 @@ class Folder:
             if isinstance(op, ast.Mult):
                 return l * r
             if isinstance(op, ast.Mod) and isinstance(l, (str, bytes)):
+                return l % r
+            if isinstance(op, ast.Mod):
                 return l % r
             if isinstance(op, ast.BitXor):
                 return l ^ r
@@ -168,8 +209,8 @@ class Folder:
                 return chr(args[0])
             if fn == 'ord':
                 return ord(args[0])
-            if fn in ('str', 'int'):
-                return {'str': str, 'int': int}[fn](*args)
+            if fn in ('str', 'int', 'bytes', 'hex'):
+                return {'str': str, 'int': int, 'bytes': bytes, 'hex': hex}[fn](*args)
             if fn.endswith('.join') and isinstance(e.func, ast.Attribute):
                 sep = self.fold(e.func.value, upto, env)
                 return sep.join(args[0])
